@@ -2,6 +2,9 @@
 import json, sys
 props = [json.loads(l) for l in open('/verif/properties.jsonl')]
 CLAIMED = {
+ 'C11': dict(cat='other', tech='static analysis: abstract interpretation of LLVM IR with closed-form loop acceleration (exact modular trip counts) producing symbolic strided access regions, instantiated on a box of shape tuples and checked against a frozen memory contract',
+   text='For every contract entry (28 module-level functions, ~100 exported kernels), both module types, both CPU dispatch paths and every shape of an explicit box including all zero/unequal/threshold corners: reads/writes inside declared extents and inside the bytes returned by the library\'s own bytes_of_*/tmp_bytes functions, outputs fully written, no read of unwritten output/scratch, tables read-only and in bounds, no wrapped loop bound, size functions pure, new/delete pairing, no alignment-sensitive access on caller buffers. Data values are abstract (all inputs covered); shapes are covered on the box, not for all sizes.',
+   note='trusted: clang/LLVM-14 IR + canonicalisation passes, irdump, spqa.contract/spqa.kernels tables (transcribed from the headers), asm scan of the four .s kernels; data-dependent sanity checks of table contents (if (...) abort()) assumed to pass', ref='DESIGN 2/E3, 3/C11'),
  'C12': dict(cat='other', tech='static analysis: interprocedural may-write/may-read effect analysis by pointer provenance over the dispatch-resolved call graph + dominance rule on static-cache writes',
    text='Sound sufficient condition: no function taking a MODULE/PRECOMP may write or free a global or memory reachable from the table, nor read a static that library code writes (all dispatch candidates, flow-insensitive => every input/shape/interleaving); *_simple caches are only written behind an empty-slot test. Does not decide concurrent first calls of *_simple functions (documented unsupported).',
    note='trusted: clang/LLVM-14 IR, irdump, role table tables/roles.json; assembly kernels modelled as writing only their data arguments', ref='DESIGN 3/C12'),
